@@ -79,3 +79,26 @@ const int **__ctype_toupper_loc (void)
   return &verif_upper_ptr;
 }
 #endif
+#ifdef VERIF_CBMC
+/* UTF-8 model of mblen (the driver runs under C.UTF-8) */
+#include <stdlib.h>
+size_t __ctype_get_mb_cur_max (void) { return 4; }
+int mblen (const char *s, size_t n)
+{
+  unsigned char c;
+  int k, i;
+  if (!s) return 0;
+  if (n == 0) return -1;
+  c = (unsigned char) s[0];
+  if (c == 0) return 0;
+  if (c < 0x80) return 1;
+  if (c >= 0xc2 && c <= 0xdf) k = 2;
+  else if (c >= 0xe0 && c <= 0xef) k = 3;
+  else if (c >= 0xf0 && c <= 0xf4) k = 4;
+  else return -1;
+  if ((size_t) k > n) return -1;
+  for (i = 1; i < k; i++)
+    if (((unsigned char) s[i] & 0xc0) != 0x80) return -1;
+  return k;
+}
+#endif
